@@ -771,7 +771,9 @@ impl Property for C03 {
         "one case = 1-3 generated projects (shared resources, identical command text and identical relative paths in different project directories, X.output across projects) and a history of 2-5 invocations over an untouched tree (different requested sets and spellings; the only edits are touch-only, content identical). Oracle: a target that declares inputs, has a definite model record and whose declared resources are content-equal to that record must not have its script started; a target without inputs must never be skipped. distinct_nontrivial = distinct order hashes among invocations in which a target with a model record was evaluated"
     }
     fn generate(&self, rng: &mut Rng, _case: u64) -> Scenario {
-        gen_history(rng, &HistOpts { io: IoOpts { multi_project_pct: 60, max_targets: 6, cmd_pct: 35, cmd_output_pct: 0, own_output_inside_input_pct: 12 }, max_invocations: 4, edit_pct: 40, touch_only: true, vary_entry: false, clean_pct: 0, fail_pct: 18, corrupt_pct: 0, io_fault_pct: 0, sys_fault: (12, true) })
+        let mut sc = gen_history(rng, &HistOpts { io: IoOpts { multi_project_pct: 60, max_targets: 6, cmd_pct: 35, cmd_output_pct: 0, own_output_inside_input_pct: 12 }, max_invocations: 4, edit_pct: 40, touch_only: true, vary_entry: false, clean_pct: 0, fail_pct: 18, corrupt_pct: 0, io_fault_pct: 0, sys_fault: (12, true) });
+        sc.import_through_links();
+        sc
     }
     fn evaluate(&self, sc: &Scenario, root: &Path, stats: &mut Stats) -> Option<Violation> {
         eval_history(sc, root, stats, Some(Which::Complete), any_target, None, nontrivial_decision)
@@ -833,7 +835,9 @@ impl Property for C18 {
         "one case = 2-3 projects + a history of 2-5 invocations with different requested targets, different entry projects (-p the root or an imported project's own directory), --clean T for some targets, failing other targets, interleaved with edits. Oracle (both directions): each target's decision equals the model's decision computed from that target's own declared resources and its own last successful completion only. distinct_nontrivial = distinct order hashes among invocations where a target with a model record was evaluated"
     }
     fn generate(&self, rng: &mut Rng, _case: u64) -> Scenario {
-        gen_history(rng, &HistOpts { io: IoOpts { multi_project_pct: 85, max_targets: 6, cmd_pct: 20, cmd_output_pct: 0, own_output_inside_input_pct: 12 }, max_invocations: 5, edit_pct: 50, touch_only: false, vary_entry: true, clean_pct: 20, fail_pct: 20, corrupt_pct: 10, io_fault_pct: 0, sys_fault: (10, true) })
+        let mut sc = gen_history(rng, &HistOpts { io: IoOpts { multi_project_pct: 85, max_targets: 6, cmd_pct: 20, cmd_output_pct: 0, own_output_inside_input_pct: 12 }, max_invocations: 5, edit_pct: 50, touch_only: false, vary_entry: true, clean_pct: 20, fail_pct: 20, corrupt_pct: 10, io_fault_pct: 0, sys_fault: (10, true) });
+        sc.import_through_links();
+        sc
     }
     fn evaluate(&self, sc: &Scenario, root: &Path, stats: &mut Stats) -> Option<Violation> {
         eval_history(sc, root, stats, Some(Which::Both), any_target, None, nontrivial_decision)
@@ -1206,7 +1210,19 @@ impl Property for C12 {
                         link_files.push(FileSpec { path: format!("{}/store/{}-latest/inner.txt", p.dir, name), kind: FileKind::File("kept elsewhere, in a directory\n".into()) });
                         link_files.push(FileSpec { path: format!("{}/{}", p.dir, link), kind: FileKind::Symlink(format!("../store/{}-latest", name)) });
                     }
-                    t.output.push(Res::Paths { paths: vec![link], extensions: link_ext });
+                    // the same link spelled with a trailing separator or `/.` (the kernel then
+                    // resolves it), or used as a directory on the way to the declared path: what
+                    // lies behind a link is never cleaned (hash of the name decides, not the
+                    // generator's stream)
+                    let h = simrt::stamp::fnv(simrt::stamp::FNV_INIT, format!("{}/{}", p.dir, link).as_bytes());
+                    let is_dir_link = link_files.last().map(|f| matches!(&f.kind, FileKind::Symlink(t) if !t.ends_with(".txt"))).unwrap_or(false);
+                    let declared = match (is_dir_link, h % 5) {
+                        (true, 0) => format!("{}/", link),
+                        (true, 1) => format!("{}/.", link),
+                        (true, 2) => format!("{}/inner.txt", link),
+                        _ => link,
+                    };
+                    t.output.push(Res::Paths { paths: vec![declared], extensions: link_ext });
                 }
             }
         }
@@ -1214,7 +1230,7 @@ impl Property for C12 {
         // a loaded project without any target that still holds recorded state of former targets
         if rng.chance(25) && sc.projects[0].targets.iter().all(|t| t.name != "zz") {
             let idx = sc.projects.len();
-            sc.projects.push(Project { dir: "pe".into(), name: Some("empty".into()), imports: vec![], targets: vec![], raw_yaml: None });
+            sc.projects.push(Project { dir: "pe".into(), name: Some("empty".into()), imports: vec![], targets: vec![], raw_yaml: None, import_paths: Default::default() });
             sc.projects[0].imports.push(("empty".into(), idx));
             sc.files.push(FileSpec { path: "pe/.zinoma/former.checksums".into(), kind: FileKind::File("state of a target that no longer exists\n".into()) });
             sc.files.push(FileSpec { path: "pe/keep.txt".into(), kind: FileKind::File("must survive\n".into()) });
@@ -1330,7 +1346,7 @@ fn crash_inside_clean(sc: &Scenario, root: &Path, stats: &mut Stats) -> Option<V
 /// values are changed one at a time between invocations.
 pub fn gen_shared_command_layout(rng: &mut Rng) -> Scenario {
     let np = rng.range(2, 3);
-    let mut projects = vec![Project { dir: "p0".into(), name: if rng.chance(50) { Some("root".into()) } else { None }, imports: vec![], targets: vec![], raw_yaml: None }];
+    let mut projects = vec![Project { dir: "p0".into(), name: if rng.chance(50) { Some("root".into()) } else { None }, imports: vec![], targets: vec![], raw_yaml: None, import_paths: Default::default() }];
     let mut vars = BTreeMap::new();
     let mut files = vec![];
     let names = ["liba", "libb"];
@@ -1350,7 +1366,7 @@ pub fn gen_shared_command_layout(rng: &mut Rng) -> Scenario {
         files.push(FileSpec { path: format!("{}/src.txt", dir), kind: FileKind::File(format!("{} source\n", dir)) });
         files.push(FileSpec { path: format!("{}/out", dir), kind: FileKind::Dir });
         vars.insert(format!("{}__ver", dir), format!("{} version 1\n", dir));
-        projects.push(Project { dir, name: Some(names[i - 1].into()), imports: vec![], targets: vec![gen_t], raw_yaml: None });
+        projects.push(Project { dir, name: Some(names[i - 1].into()), imports: vec![], targets: vec![gen_t], raw_yaml: None, import_paths: Default::default() });
         projects[0].imports.push((names[i - 1].into(), i));
         consumer.deps.push(DepRef { project: i, target: "gen".into(), via_dep: rng.chance(30), via_output: true, qualified: true });
     }
